@@ -421,13 +421,13 @@ ToPython(f, b) ==
             \* list_field.py to_python: decode every item with the item field, then validate
             IF f.item.kind \in {"nofield", "any"} \/ b.t \notin {"list", "tuple"} THEN
                 (IF f.item.kind \in {"nofield", "any"} THEN Ok(b)
-                 ELSE IF IsNone(b) THEN Ok(ListV(<<>>))      \* ListProxy(cfg, f, None) is empty
+                 ELSE IF ~Truthy(b) THEN Ok(ListV(<<>>))     \* ListProxy(cfg, f, None | {} | "" | 0): `iterable or []`
                  ELSE Fail("Unmodelled"))
             ELSE LET d == ToPythonItems(f.item, b.l, <<>>) IN
                  IF ~d.ok THEN d ELSE ValidateItems(f.item, d.v, <<>>)
       [] f.kind = "dict" ->
             IF f.keyf.kind = "nofield" /\ f.valf.kind = "nofield" THEN Ok(b)
-            ELSE IF IsNone(b) THEN Ok(DictV(<<>>))           \* DictProxy(cfg, f, None) is empty
+            ELSE IF ~Truthy(b) THEN Ok(DictV(<<>>))          \* DictProxy(cfg, f, None | [] | "" | 0): `iterable or []`
             ELSE IF b.t # "dict" THEN Fail("Unmodelled")
             ELSE LET d == ToPythonPairs(f, b.kv, <<>>) IN
                  IF ~d.ok THEN d ELSE ValidatePairs(f, d.v, <<>>)
